@@ -300,14 +300,21 @@ func (clnt *Clnt) send() {
 			return
 
 		case req := <-clnt.reqout:
+			tc := req.Tc
+			if tc == nil {
+				/* the connection failed after the request was handed
+				   over: the call has returned and recycled it */
+				continue
+			}
+
 			if clnt.Debuglevel > 0 {
-				clnt.logFcall(req.Tc)
+				clnt.logFcall(tc)
 				if clnt.Debuglevel&DbgPrintPackets != 0 {
-					log.Println("{-{", clnt.Id, fmt.Sprintf("%v", req.Tc.Pkt))
+					log.Println("{-{", clnt.Id, fmt.Sprintf("%v", tc.Pkt))
 				}
 
 				if clnt.Debuglevel&DbgPrintFcalls != 0 {
-					log.Println("{{{", clnt.Id, req.Tc.String())
+					log.Println("{{{", clnt.Id, tc.String())
 				}
 			}
 
@@ -316,8 +323,8 @@ func (clnt *Clnt) send() {
 			// the response (freeing the Fcall back to the pool) before
 			// send finishes writing, allowing PackT* to overwrite Pkt
 			// while conn.Write is still reading from it.
-			pkt := make([]byte, len(req.Tc.Pkt))
-			copy(pkt, req.Tc.Pkt)
+			pkt := make([]byte, len(tc.Pkt))
+			copy(pkt, tc.Pkt)
 			for buf := pkt; len(buf) > 0; {
 				n, err := clnt.conn.Write(buf)
 				if err != nil {
